@@ -40,7 +40,11 @@ RULE = ("random rule systems (3-8 variables over the expression language of coq/
         "persons and one of groups (blocks, reversed blocks, order-preserving, arbitrary shuffle) and a permutation of "
         "situation 1; 4 real simulations per case (+1 through SimulationBuilder.build_from_entities with string ids for "
         "every third case); plus an oracle-only stream (1 in 6) on a monthly variable with the divide set-input rule: "
-        "explicit month inputs with many zeros, then a yearly amount, alone vs merged vs permuted; non-trivial when a formula with a group operation was evaluated in the merged simulation "
+        "explicit month inputs with many zeros, then a yearly amount, alone vs merged vs permuted; (n/3) first_person / "
+        "value_nth_person / members_position on households of 3-5 members fully interleaved, merged in an order that keeps "
+        "each situation's own order; (n/4) two JSON situations that spell the same periods differently (month / year / "
+        "ETERNITY, person and group variables, one eternal, one with the divide rule) built alone and together through "
+        "build_from_entities; non-trivial when a formula with a group operation was evaluated in the merged simulation "
         "and returned an array; distinct by JSON text")
 TRUSTED = ["harness/rules.py: compiler from rule-system terms to real Variable subclasses (formulas call the public API)",
            "harness/c11.py: scatter-style construction of merged / permuted members_entity_id, members_role and input arrays"]
@@ -168,6 +172,88 @@ def gen_divide(rng):
             "sp": gen_perm(rng, n1), "sg": gen_perm(rng, pop1["count"])}
 
 
+def gen_big_situation(rng):
+    """1-2 households of 3-5 members (sometimes one more without members), the persons of the households
+    of one situation interleaved among themselves"""
+    nh = rng.randint(1, 2)
+    sizes = [rng.randint(3, 5) for _ in range(nh)]
+    tags = [h for h in range(nh) for _ in range(sizes[h])]
+    if rng.random() < 0.7:
+        rng.shuffle(tags)
+    else:
+        tags = [h for k in range(max(sizes)) for h in range(nh) if k < sizes[h]]     # a0 b0 a1 b1 ...
+    count = nh
+    if rng.random() < 0.3:          # a household without members, first or last
+        count += 1
+        if rng.random() < 0.5:
+            tags = [t + 1 for t in tags]
+    roles, parents = [], {}
+    for g in tags:
+        if parents.get(g, 0) < 2:
+            roles.append(0)
+            parents[g] = parents.get(g, 0) + 1
+        else:
+            roles.append(1)
+    return {"count": count, "ids": tags, "roles": roles}
+
+
+def gen_first(rng):
+    """Oracle-only stream: position-dependent primitives (first_person, value_nth_person,
+    members_position) on larger households whose persons are fully interleaved; the interleaving keeps each
+    situation's internal order (the first sentence of the property then covers them)."""
+    pop1, pop2 = gen_big_situation(rng), gen_big_situation(rng)
+    n1, n2 = len(pop1["ids"]), len(pop2["ids"])
+    if rng.random() < 0.5:
+        tags = [k for i in range(max(n1, n2)) for k in (0, 1) if i < (n1, n2)[k]]     # strictly alternating
+    else:
+        tags = [0] * n1 + [1] * n2
+        rng.shuffle(tags)
+    f, nxt = [[], []], 0
+    for pos, t in enumerate(tags):
+        f[t].append(pos)
+    gmode, g1, g2 = gen_interleaving(rng, pop1["count"], pop2["count"])
+    return {"kind": "first", "pop1": pop1, "pop2": pop2, "f1": f[0], "f2": f[1], "g1": g1, "g2": g2,
+            "x1": [rng.randint(1, 900) for _ in range(n1)], "x2": [rng.randint(1, 900) for _ in range(n2)],
+            "modes": ["ordered", gmode]}
+
+
+MONTH_SPELLINGS = ["2018-01", "month:2018-01", "month:2018-01:1"]
+YEAR_SPELLINGS = ["2018", "year:2018", "year:2018:1"]
+ETERNITY_SPELLINGS = ["ETERNITY", "eternity"]
+SPELL_VARS = {  # name: (entity, value type, definition period, spellings, divide rule)
+    "pm": ("person", "int", "month", MONTH_SPELLINGS, False),
+    "pe": ("person", "int", "eternity", ETERNITY_SPELLINGS, False),
+    "pd": ("person", "float", "month", YEAR_SPELLINGS, True),
+    "gm": ("group", "float", "month", MONTH_SPELLINGS, False),
+    "ge": ("group", "int", "eternity", ETERNITY_SPELLINGS, False),
+    "gy": ("group", "int", "year", YEAR_SPELLINGS, False),
+}
+
+
+def gen_spell(rng):
+    """Oracle-only stream through SimulationBuilder.build_from_entities: the two situations spell the same
+    periods differently."""
+    pop1, pop2 = rules.gen_pop(rng, 3), rules.gen_pop(rng, 3)
+    n1, n2 = len(pop1["ids"]), len(pop2["ids"])
+    spell = {}
+    for name, (_e, _t, _u, forms, _d) in SPELL_VARS.items():
+        a = rng.choice(forms)
+        b = rng.choice([x for x in forms if x != a]) if rng.random() < 0.8 else a
+        spell[name] = [a, b]
+    vals = []
+    for pop in (pop1, pop2):
+        d = {}
+        for name, (ent, _t, _u, _f, div) in SPELL_VARS.items():
+            k = len(pop["ids"]) if ent == "person" else pop["count"]
+            d[name] = [(1200 * rng.randint(1, 9) if div else rng.randint(1, 500)) if rng.random() < 0.85 else None
+                       for _ in range(k)]
+        vals.append(d)
+    pmode, f1, f2 = gen_interleaving(rng, n1, n2)
+    gmode, g1, g2 = gen_interleaving(rng, pop1["count"], pop2["count"])
+    return {"kind": "spell", "pop1": pop1, "pop2": pop2, "spell": spell, "vals1": vals[0], "vals2": vals[1],
+            "f1": f1, "f2": f2, "g1": g1, "g2": g2, "modes": [pmode, gmode]}
+
+
 def generate(rng, tier):
     n = {"quick": 300, "escalated": 600, "thorough": 4000}[tier]
     cases = []
@@ -176,6 +262,10 @@ def generate(rng, tier):
         cases.append(gen_one(rng, profile, builder=(k % 3 == 0)))
     for _ in range(n // 5):
         cases.append(gen_divide(rng))
+    for _ in range(n // 3):
+        cases.append(gen_first(rng))
+    for _ in range(n // 4):
+        cases.append(gen_spell(rng))
     return cases
 
 
@@ -381,9 +471,184 @@ def oracle_divide(case, obs):
     return None
 
 
+def run_first_one(pop, x):
+    """position-dependent primitives of GroupPopulation on the real engine"""
+    from openfisca_core import periods
+    from openfisca_core.variables import Variable
+    tbs = rules.build_system({"vars": [], "params": []}, set())
+    person, household = tbs.person_entity, tbs.group_entities[0]
+
+    class x_in(Variable):
+        value_type = int
+        entity = person
+        definition_period = periods.DateUnit.MONTH
+
+    class first_x(Variable):
+        value_type = int
+        entity = household
+        definition_period = periods.DateUnit.MONTH
+
+        def formula(hh, period, parameters):
+            return hh.first_person("x_in", period)
+
+    class my_first_x(Variable):
+        value_type = int
+        entity = person
+        definition_period = periods.DateUnit.MONTH
+
+        def formula(pers, period, parameters):
+            return pers.household.first_person("x_in", period)
+
+    for cls in (x_in, first_x, my_first_x):
+        tbs.add_variable(cls)
+    sim = rules.build_simulation(tbs, pop, {}, {"max_loops": 1})
+    sim.set_input("x_in", "2018-01", numpy.array(x))
+    hh = sim.populations["household"]
+    arr = numpy.array(x)
+    group = {"first_person(variable)": [int(v) for v in sim.calculate("first_x", "2018-01")],
+             "value_from_first_person": [int(v) for v in hh.value_from_first_person(arr)]}
+    for k in range(4):
+        group[f"value_nth_person({k})"] = [int(v) for v in hh.value_nth_person(k, arr, default=-1)]
+    pers = {"members_position": [int(v) for v in hh.members_position],
+            "person.household.first_person(variable)": [int(v) for v in sim.calculate("my_first_x", "2018-01")]}
+    return {"group": group, "person": pers}
+
+
+def run_first(case):
+    n1, n2 = len(case["pop1"]["ids"]), len(case["pop2"]["ids"])
+    runs = []
+    with warnings.catch_warnings():
+        warnings.simplefilter("ignore")
+        for pop, x in ((case["pop1"], case["x1"]), (case["pop2"], case["x2"]),
+                       (merged_pop(case), scatter([(case["f1"], case["x1"]), (case["f2"], case["x2"])], n1 + n2))):
+            try:
+                runs.append(run_first_one(pop, x))
+            except Exception as e:  # noqa: BLE001
+                runs.append(Err(errkind(e), f"{type(e).__name__}: {e}"[:200]))
+    return {"first": runs}
+
+
+def oracle_first(case, obs):
+    a1, a2, m = obs["first"]
+    n1, n2 = len(case["pop1"]["ids"]), len(case["pop2"]["ids"])
+    c1, c2 = case["pop1"]["count"], case["pop2"]["count"]
+    for tag, small, fp, fg in (("merged-vs-situation1", a1, case["f1"], case["g1"]),
+                               ("merged-vs-situation2", a2, case["f2"], case["g2"])):
+        if isinstance(small, Err):
+            return f"driver: the situation alone fails: {small.kind} {small.msg}"
+        if isinstance(m, Err):
+            return f"{tag}-position: together {m!r} {m.msg}, alone values"
+        for level, f, total in (("group", fg, c1 + c2), ("person", fp, n1 + n2)):
+            for name in small[level]:
+                msg = compare_arrays(f"{tag}-position: {name}", m[level][name], small[level][name], f, total)
+                if msg:
+                    return msg
+    return None
+
+
+def spell_system():
+    from openfisca_core import holders, periods
+    from openfisca_core.variables import Variable
+    tbs = rules.build_system({"vars": [], "params": []}, set())
+    ents = {"person": tbs.person_entity, "group": tbs.group_entities[0]}
+    for name, (ent, ty, unit, _forms, div) in SPELL_VARS.items():
+        attrs = {"value_type": rules.TYPES[ty], "entity": ents[ent], "definition_period": rules.UNIT_OBJ[unit]}
+        if div:
+            attrs["set_input"] = holders.set_input_divide_by_period
+        tbs.add_variable(type(name, (Variable,), attrs))
+    return tbs
+
+
+def spell_situation(case, which):
+    """JSON situation of situation 1, of situation 2 (which = 0 / 1) or of both merged (which = None):
+    persons and households in storage order, every situation with ITS OWN spelling of the periods"""
+    pops = (case["pop1"], case["pop2"])
+    vals = (case["vals1"], case["vals2"])
+    if which is None:
+        n = len(pops[0]["ids"]) + len(pops[1]["ids"])
+        c = pops[0]["count"] + pops[1]["count"]
+        porder = scatter([(case["f1"], [(0, i) for i in range(len(pops[0]["ids"]))]),
+                          (case["f2"], [(1, i) for i in range(len(pops[1]["ids"]))])], n)
+        gorder = scatter([(case["g1"], [(0, g) for g in range(pops[0]["count"])]),
+                          (case["g2"], [(1, g) for g in range(pops[1]["count"])])], c)
+    else:
+        porder = [(which, i) for i in range(len(pops[which]["ids"]))]
+        gorder = [(which, g) for g in range(pops[which]["count"])]
+    persons, households = {}, {}
+    for k, i in porder:
+        d = {}
+        for name, (ent, ty, _u, _f, _d) in SPELL_VARS.items():
+            if ent == "person" and vals[k][name][i] is not None:
+                d[name] = {case["spell"][name][k]: rules.TYPES[ty](vals[k][name][i])}
+        persons[f"s{k}_p{i}"] = d
+    for k, g in gorder:
+        d = {"parents": [], "children": [], "heads": []}
+        for i, gi in enumerate(pops[k]["ids"]):
+            if gi == g:
+                d[["parents", "children", "heads"][pops[k]["roles"][i]]].append(f"s{k}_p{i}")
+        for name, (ent, ty, _u, _f, _d) in SPELL_VARS.items():
+            if ent == "group" and vals[k][name][g] is not None:
+                d[name] = {case["spell"][name][k]: rules.TYPES[ty](vals[k][name][g])}
+        households[f"s{k}_h{g}"] = d
+    return {"persons": persons, "households": households}
+
+
+SPELL_READS = {"pm": ["2018-01", "2018-02"], "pe": ["2018-01"], "pd": ["2018-01", "2018-07", "2018-12"],
+               "gm": ["2018-01"], "ge": ["2018-01"], "gy": ["2018"]}
+
+
+def run_spell_one(situation):
+    """{variable: {period: {entity id: value}}}"""
+    from openfisca_core.simulations.simulation_builder import SimulationBuilder
+    sim = SimulationBuilder().build_from_entities(spell_system(), situation)
+    out = {}
+    for name, (ent, _t, _u, _f, _d) in SPELL_VARS.items():
+        pop = sim.persons if ent == "person" else sim.populations["household"]
+        out[name] = {}
+        for per in SPELL_READS[name]:
+            values = sim.calculate(name, per)
+            out[name][per] = {str(i): float(v) for i, v in zip(pop.ids, values)}
+    return out
+
+
+def run_spell(case):
+    runs = []
+    with warnings.catch_warnings():
+        warnings.simplefilter("ignore")
+        for which in (0, 1, None):
+            try:
+                runs.append(run_spell_one(spell_situation(case, which)))
+            except Exception as e:  # noqa: BLE001
+                runs.append(Err(errkind(e), f"{type(e).__name__}: {e}"[:200]))
+    return {"spell": runs}
+
+
+def oracle_spell(case, obs):
+    a1, a2, m = obs["spell"]
+    for k, small in enumerate((a1, a2)):
+        tag = f"merged-vs-situation{k + 1}-builder-periods"
+        if isinstance(small, Err):
+            return f"driver: the situation alone fails: {small.kind} {small.msg}"
+        if isinstance(m, Err):
+            return (f"{tag}: build_from_entities fails on the two situations together ({m.kind} {m.msg}); "
+                    f"period spellings {case['spell']}")
+        for name in small:
+            for per, by_id in small[name].items():
+                for ident, v in by_id.items():
+                    got = m[name][per].get(ident)
+                    if got != v:
+                        return (f"{tag}: {name} of {ident} at {per} is {got} together, {v} alone "
+                                f"(spelled {case['spell'][name][k]!r} here, {case['spell'][name][1 - k]!r} in the other situation)")
+    return None
+
+
 def run_impl(case):
     if case.get("kind") == "divide":
         return run_divide(case)
+    if case.get("kind") == "first":
+        return run_first(case)
+    if case.get("kind") == "spell":
+        return run_spell(case)
     rest = case["requests"]
     runs = []
     mp, minp = merged_pop(case), merged_inputs(case)
@@ -409,7 +674,7 @@ def run_impl(case):
 
 
 def obs_for_coq(case, obs):
-    if case.get("kind") == "divide":
+    if case.get("kind") in ("divide", "first", "spell"):
         return "skip"          # oracle-only stream (the set-input rules are C16's model)
     if obs == "skip" or isinstance(obs, Err):
         return obs
@@ -429,7 +694,7 @@ def cinputs(inp):
 
 
 def coq_case(case):
-    if case.get("kind") == "divide" or _key(case) in _SKIP:
+    if case.get("kind") in ("divide", "first", "spell") or _key(case) in _SKIP:
         return "CSkip"
     return (f"(CInd {rules.csys(case['sys'], None)} {rules.cpop(case['pop1'])} {rules.cpop(case['pop2'])} "
             f"{cinputs(case['inp1'])} {cinputs(case['inp2'])} "
@@ -501,6 +766,10 @@ def oracle(case, obs):
         return f"driver: {obs.kind} {obs.msg}"
     if case.get("kind") == "divide":
         return oracle_divide(case, obs)
+    if case.get("kind") == "first":
+        return oracle_first(case, obs)
+    if case.get("kind") == "spell":
+        return oracle_spell(case, obs)
     a1, a2, m, p = obs["runs"]
     n1, n2 = len(case["pop1"]["ids"]), len(case["pop2"]["ids"])
     c1, c2 = case["pop1"]["count"], case["pop2"]["count"]
@@ -539,8 +808,8 @@ def oracle(case, obs):
 def nontrivial(case, obs):
     if obs == "skip" or isinstance(obs, Err):
         return False
-    if case.get("kind") == "divide":
-        return not any(isinstance(r, Err) for r in obs["divide"])
+    if case.get("kind") in ("divide", "first", "spell"):
+        return not any(isinstance(r, Err) for r in obs[case["kind"]])
     if not (rules.has_tag(case["sys"], "agg") or rules.has_tag(case["sys"], "project") or rules.has_tag(case["sys"], "nb")):
         return False
     m = obs["runs"][2]
@@ -573,8 +842,10 @@ def kinded(sys):
 
 
 def classify(case, obs):
-    if case.get("kind") == "divide":
-        return "divide-rule (oracle only)" + ("" if isinstance(obs, dict) else " driver-error")
+    if case.get("kind") in ("divide", "first", "spell"):
+        name = {"divide": "divide-rule", "first": "position-dependent primitives, interleaved households",
+                "spell": "builder, differently spelled periods"}[case["kind"]]
+        return name + " (oracle only)" + ("" if isinstance(obs, dict) else " driver-error")
     if not kinded(case["sys"]):
         return "NOT-KINDED (outside the theorems' hypothesis)"
     if obs == "skip":
@@ -590,7 +861,7 @@ def classify(case, obs):
 
 def shrink(case, still_fails):
     """drop requests, then inputs, while the oracle still fails"""
-    if case.get("kind") == "divide":
+    if case.get("kind") in ("divide", "first", "spell"):
         return None
     cur = json.loads(json.dumps(case))
     changed = True
